@@ -560,9 +560,30 @@ func cmdRun(args []string) error {
 	n := fs.Int("n", 300, "random-schedule cases")
 	g := fs.Int("groups", 40, "friendly groups (one client script under every configuration pair)")
 	maxLen := fs.Int("len", 40, "max client ops per case")
+	exh := fs.Int("exhaustive", 0, "after 'Pt Pt Pt' under limit 2 (the next push overflows): every label sequence up to this length over {Pt,Pp,O,L,Kp,Kt,q,X}, then a drain; durable and not")
 	fs.Parse(args)
 	w := bufio.NewWriter(os.Stdout)
 	defer w.Flush()
+	if *exh > 0 {
+		alpha := []string{"Pt", "Pp", "O", "L", "Kp", "Kt", "q", "X"}
+		var rec func(prefix []string)
+		rec = func(prefix []string) {
+			if len(prefix) > 0 {
+				script := append([]string{"Pt", "Pt", "Pt"}, prefix...)
+				script = append(script, "o", "o", "o", "o", "o", "o", "o", "o", "o")
+				for _, d := range []bool{false, true} {
+					fmt.Fprintln(w, runScript(d, 2, 2, script))
+				}
+			}
+			if len(prefix) == *exh {
+				return
+			}
+			for _, a := range alpha {
+				rec(append(append([]string{}, prefix...), a))
+			}
+		}
+		rec(nil)
+	}
 	r := hx.NewRng(*seed)
 	limits := []uint64{1, 2, 3, 4, 5, 8, 1000}
 	for i := 0; i < *n; i++ {
